@@ -624,6 +624,7 @@ class StmtMixin:
             x = self.fresh(et, "x")
             body_st.assume(z3.And(self.set_subset(done, setv), setv.t[x.t], z3.Not(done.t[x.t])), f"loop{ordn}:iter")
             body_st.assume(self.eval_inv(body_st, spec, extra_at(done)))
+            body_st.env[f"_done{ordn}"] = done
             if items_of is not None:
                 self.assign_target(body_st, n.target, py((x, self.dict_get(items_of, x))))
             else:
